@@ -48,6 +48,26 @@ for lf in [("c",), ("d",), ("a", "b"), ("a", "c"), ("a", "d"), ("b", "a"), ("b",
     SHAPE[lf] = "leaf"
 MODS_ONLY = {("n",), ("a", "n")}
 KEYS = ["a", "b", "c", "d", "n"]
+# settings NAMED like dict-protocol / Config methods (root, nested, one whole section): they are read and written with
+# ITEM syntax - attribute access yields the method, as documented
+METHOD_NAMES = ["keys", "items", "values", "get", "pop", "update", "clear", "copy", "setdefault", "popitem", "clone", "merge"]
+for lf in [("keys",), ("get",), ("clone",), ("a", "items"), ("a", "clear"), ("a", "pop"), ("b", "values"), ("b", "copy"),
+           ("b", "setdefault"), ("b", "b", "popitem"), ("a", "a", "merge"), ("update", "a"), ("update", "keys"),
+           ("update", "update"), ("n", "items")]:
+    SHAPE[lf] = "leaf"
+SHAPE[("update",)] = "sec"
+KEYS += METHOD_NAMES
+
+
+def plain_syntax(op):
+    """method-named keys are addressed by item syntax only (in place; also inside a handle operation)"""
+    tgt = op.get("sub", op)
+    for st in op.get("path", []):
+        if st[0] in METHOD_NAMES:
+            st[1] = False
+    if tgt.get("k") in METHOD_NAMES and tgt.get("op") in ("SA", "DA", "GA"):
+        tgt["op"] = {"SA": "SI", "DA": "DI", "GA": "GI"}[tgt["op"]]
+    return op
 
 
 def in_mods_only(p):
@@ -96,6 +116,24 @@ def share_variant(rng, data):
     return {"pairs": pairs, "top": list(data)}
 
 
+def equal_variant(rng, d):
+    """a fresh tree `==` to `d`: keys reordered at every depth, some 0/1 <-> False/True swaps"""
+    ks = list(d)
+    rng.shuffle(ks)
+    out = {}
+    for k in ks:
+        v = d[k]
+        if isinstance(v, dict):
+            out[k] = equal_variant(rng, v)
+        elif isinstance(v, bool) and rng.random() < 0.4:
+            out[k] = int(v)
+        elif isinstance(v, int) and not isinstance(v, bool) and v in (0, 1) and rng.random() < 0.6:
+            out[k] = bool(v)
+        else:
+            out[k] = copy.deepcopy(v)
+    return out
+
+
 def sections(t, pre=()):
     out = [pre]
     for k, v in t.items():
@@ -116,7 +154,7 @@ def gen_env(rng, t):
 
 
 def gen_history(rng, maxlen=40, risky=0.03, files=False, clone_p=0.03, into_p=0.0, coll_p=0.0, max_objs=3,
-                classes=None, reload_p=0.17, levels=False, focus=0.0, dictwrites=True, share_p=0.0, srcedit_p=0.0, shapes=True, proxy_ok=True):
+                classes=None, reload_p=0.17, levels=False, focus=0.0, dictwrites=True, share_p=0.0, srcedit_p=0.0, shapes=True, proxy_ok=True, eqreload_p=0.0):
     """random history guided by a reference simulation (independent of the implementation)"""
     ops = [{"o": 0, "op": "NEW", "defaults": tree(rng), "overrides": tree(rng, dens=0.3)}]
     if files:
@@ -126,6 +164,8 @@ def gen_history(rng, maxlen=40, risky=0.03, files=False, clone_p=0.03, into_p=0.
     for fld in ("defaults", "overrides", "system", "user", "project", "runtime"):
         if isinstance(ops[0].get(fld), dict) and rng.random() < share_p:
             ops[0].setdefault("share", {})[fld] = share_variant(rng, ops[0][fld])
+    # clone target classes whose global_defaults() hands out ONE shared table (a module-level constant)
+    const_cls = {k for k in range(len(classes or [])) if rng.random() < 0.5}
     refs = [cfglib.new_ref(ops[0])]
     # the level dicts the caller still holds (object, slot) -> current content; shared levels are left alone
     held = {(0, fld): ops[0][fld] for fld in ("defaults", "overrides") if fld not in ops[0].get("share", {})}
@@ -137,6 +177,19 @@ def gen_history(rng, maxlen=40, risky=0.03, files=False, clone_p=0.03, into_p=0.
         op = {"o": o}
         extra = []
         mine = [k for k in held if k[0] == o]
+        if mine and rng.random() < eqreload_p:
+            # reload a level with EQUAL-BUT-NOT-IDENTICAL content: a new dict object with another key order and / or
+            # equal values of another type (1 <-> True, 0 <-> False)
+            slot = rng.choice(mine)[1]
+            data = equal_variant(rng, held[(o, slot)])
+            held[(o, slot)] = data
+            e = {"o": o, "op": "LOAD", "slot": slot, "data": data, "eqreload": True}
+            ops.append(e)
+            try:
+                ref.apply(e)
+            except cfglib.RefSkip:
+                pass
+            continue
         if mine and rng.random() < srcedit_p:
             # CALLER-SIDE in-place edit of data supplied earlier, made visible by load_*(the same object) / merge()
             slot = rng.choice(mine)[1]
@@ -204,12 +257,17 @@ def gen_history(rng, maxlen=40, risky=0.03, files=False, clone_p=0.03, into_p=0.
                 op.update(op="LOAD", slot=kind, data=tree(rng, dens=0.3 if kind == "overrides" else 0.55))
                 if kind == "collection" and rng.random() < coll_p:
                     op["via_coll"] = True
+        elif r < reload_p + clone_p and len(refs) < max_objs and classes and rng.random() < 0.15:
+            # a FRESH instance of a clone target class: it must read exactly that class's defaults table
+            k = rng.randrange(len(classes))
+            op.update(op="FRESH", cls=k, into=copy.deepcopy(classes[k]), const=k in const_cls)
         elif r < reload_p + clone_p and len(refs) < max_objs:
             op.update(op="CLONE")
             if rng.random() < into_p:
                 if classes:
                     op["cls"] = rng.randrange(len(classes))
                     op["into"] = copy.deepcopy(classes[op["cls"]])
+                    op["const"] = op["cls"] in const_cls
                 else:
                     op["into"] = tree(rng, dens=0.4)
         else:
@@ -292,9 +350,11 @@ def gen_history(rng, maxlen=40, risky=0.03, files=False, clone_p=0.03, into_p=0.
                     held[(op["o"], op["slot"])] = op["data"]
             if op["op"] == "UPD" and "m" in op and shapes:
                 op["shape"] = rng.choice(SHAPES_IN_USE if proxy_ok else cfglib.UPDATE_SHAPES)
-            ops.append(op)
+            ops.append(plain_syntax(op))
             try:
-                if op["op"] == "CLONE":
+                if op["op"] == "FRESH":
+                    refs.append(cfglib.Ref({"defaults": op["into"]}))
+                elif op["op"] == "CLONE":
                     k = ref.clone()
                     if op.get("into") is not None:
                         k.reload("defaults", cfglib.deep_merge(op["into"], k.levels["defaults"]))
@@ -368,12 +428,13 @@ def gen_handle_history(rng, maxlen=24, files=False, clone_p=0.1, levels="nofiles
             if secs:
                 path = rng.choice(secs)
                 handles.append((len(handles), o, path))
-                out.append({"o": o, "op": "HOLD", "h": len(handles) - 1, "path": [[k, rng.random() < 0.4] for k in path]})
+                out.append(plain_syntax({"o": o, "op": "HOLD", "h": len(handles) - 1,
+                                         "path": [[k, rng.random() < 0.4] for k in path]}))
         elif r < 0.75:
             h, o, path = rng.choice(handles)
             sub = gen_sub(rng, path, refs[o])
             if sub:
-                out.append({"o": o, "op": "HOP", "h": h, "sub": sub})
+                out.append(plain_syntax({"o": o, "op": "HOP", "h": h, "sub": sub}))
                 try:
                     refs[o].apply(dict(copy.deepcopy(sub), path=[[k, False] for k in path]))
                 except cfglib.RefSkip:
@@ -560,7 +621,8 @@ def run_held(case):
 
 # ------------------------------------------------------------------ known-finding signatures
 
-KNOWN_SIGS = ("C06-section-write-merges", "C06-section-rewrite-resurrects", "C06-update-from-proxy")
+KNOWN_SIGS = ("C06-section-write-merges", "C06-section-rewrite-resurrects", "C06-update-from-proxy",
+              "C06-rewritten-key-order")
 SHAPES_IN_USE = list(cfglib.UPDATE_SHAPES)  # + "proxy" once known finding C06-update-from-proxy is listed (see run)
 
 
@@ -568,7 +630,7 @@ def classify(ops):
     """signature of the FIRST oracle failure of a history on the real code, or None (see `signature`)"""
     ops = copy.deepcopy(ops)
     _, results, views = cfglib.run_impl(ops)
-    return signature(cfglib.judge(ops[:len(results)], results, views), ops)
+    return signature(cfglib.judge(ops[:len(results)], results, views, order=True), ops)
 
 
 def signature(f, ops=None):
@@ -587,6 +649,8 @@ def signature(f, ops=None):
         return "C06-update-from-proxy"
     if f is None:
         return None
+    if f["kind"] == "order-rewritten":  # order-only, in a section where a deleted key was re-written / below a dict write
+        return "C06-rewritten-key-order"
     if f["kind"] != "view" or not f["diffs"]:
         return "other"
     ref = f["refs"][f["obj"]]
@@ -630,7 +694,7 @@ def check_hist(ops):
     """returns (ops actually run, impl rows, failure or None)"""
     _, results, views = cfglib.run_impl(ops)
     ops = ops[:len(results)]
-    return ops, cfglib.rows(results, views), cfglib.judge(ops, results, views), results
+    return ops, cfglib.rows(results, views), cfglib.judge(ops, results, views, order=True), results
 
 
 def replay(case):
@@ -674,8 +738,8 @@ def run(ctx):
         for ops in small_histories(3):
             hists.append(("small", ops))
     out.exhaustive = True
-    for _ in range(ctx.n(1200, 30000)):
-        hists.append(("random", gen_history(rng, share_p=0.1)))
+    for _ in range(ctx.n(1000, 30000)):
+        hists.append(("random", gen_history(rng, share_p=0.1, srcedit_p=0.05, eqreload_p=0.05)))
     for _ in range(ctx.n(150, 3000)):
         hists.append(("risky", gen_history(rng, maxlen=12, risky=0.5)))
     ran, lines, impl_rows = [], [], []
@@ -689,6 +753,8 @@ def run(ctx):
         out.hist["ops"] += len(ops2)
         for o, r in zip(ops2, results):
             out.hist["op_" + o["op"] + ("_err" if r.startswith("E:") else "")] += 1
+            out.hist["reload_equal_content_other_object"] += bool(o.get("eqreload"))
+            out.hist["caller_side_edit"] += o["op"] == "EDITSRC"
             if o["op"] == "UPD" and "m" in o:
                 out.hist["update_shape_" + o.get("shape", "dict") + ("+kw" if o.get("kw") else "")] += 1
         if any(o["op"] in ("LOAD", "ENV") for o in ops2) and muts:
